@@ -223,7 +223,8 @@ def run(ctx):
     _autoshapes(ctx, prog, S, M)
     from checks import c20_charts
 
-    c20_charts.run(ctx, prog, S, M)
+    ctx.rule("R20.5", "chart.chart_type (PlotTypeInspector) returns the type each chart XML writer was asked to write")
+    c20_charts.run(ctx, prog, S, M, c20_charts.per_type_skeletons(ctx, prog, M), "R20.5")
 
 
 def _exc_name(r):
